@@ -1,10 +1,17 @@
 package main
 
 import (
+	"bufio"
+	"bytes"
 	"encoding/json"
 	"fmt"
+	"io"
 	"math/rand"
+	"os"
+	"os/exec"
+	"runtime/debug"
 	"strings"
+	"sync"
 	"sync/atomic"
 	"time"
 
@@ -64,7 +71,18 @@ func c03Try(c *Ctx, src, origin string, cas interface{}) {
 	// what parses is also executed ("Parse, and therefore Render, ..."): a text the parser accepts although it is
 	// malformed must not crash the evaluator either.  (A program that runs for long is the program's own business.)
 	if parsed != nil && o.Panic == "" && !o.Hang && strings.Contains(src, "<%") {
-		ro := guarded(2*time.Second, func() (string, error) { return parsed.Exec(c03Context()) })
+		var ro observation
+		if origin == "mutation" || origin == "poisoned-token" {
+			// a mutated program may recurse without end or loop for ever (a call moved into its own function's body, a
+			// break deleted): it is executed in a process that can die or be killed
+			ro = c03Isolated.exec(src)
+			if ro.Err == "worker-died:stack-overflow" {
+				c.Drift("a mutated program recurses until the stack is exhausted (own process)")
+				ro = observation{}
+			}
+		} else {
+			ro = guarded(2*time.Second, func() (string, error) { return parsed.Exec(c03Context()) })
+		}
 		switch {
 		case ro.Hang:
 			c.Drift("a parsed input runs for long")
@@ -84,6 +102,163 @@ func c03Try(c *Ctx, src, origin string, cas interface{}) {
 	}
 	if shape != "" && len(src) > 12 {
 		c.Sample(map[string]interface{}{"input": src, "from": origin, "returned_error": o.IsErr, "panic": o.Panic, "hang": o.Hang})
+	}
+}
+
+// c03Workers: a few `verif worker exec1` processes that execute one template per request line. A worker that does not
+// answer in time is killed; one that dies (stack exhaustion cannot be recovered) is replaced.
+type c03Worker struct {
+	cmd *exec.Cmd
+	in  io.WriteCloser
+	out *bufio.Reader
+	err *bytes.Buffer
+}
+
+type c03Workers struct {
+	mu   sync.Mutex
+	free []*c03Worker
+}
+
+var c03Isolated = &c03Workers{}
+
+func (p *c03Workers) get() *c03Worker {
+	p.mu.Lock()
+	if n := len(p.free); n > 0 {
+		w := p.free[n-1]
+		p.free = p.free[:n-1]
+		p.mu.Unlock()
+		return w
+	}
+	p.mu.Unlock()
+	cmd := exec.Command(os.Args[0], "worker", "exec1")
+	in, _ := cmd.StdinPipe()
+	out, _ := cmd.StdoutPipe()
+	eb := &bytes.Buffer{}
+	cmd.Stderr = eb
+	if err := cmd.Start(); err != nil {
+		return nil
+	}
+	return &c03Worker{cmd: cmd, in: in, out: bufio.NewReaderSize(out, 1<<20), err: eb}
+}
+
+func (p *c03Workers) put(w *c03Worker) {
+	p.mu.Lock()
+	p.free = append(p.free, w)
+	p.mu.Unlock()
+}
+
+func (p *c03Workers) closeAll() {
+	p.mu.Lock()
+	for _, w := range p.free {
+		w.in.Close()
+		w.cmd.Process.Kill()
+		w.cmd.Wait()
+	}
+	p.free = nil
+	p.mu.Unlock()
+}
+
+func (p *c03Workers) exec(src string) observation {
+	w := p.get()
+	if w == nil {
+		return observation{}
+	}
+	req, _ := json.Marshal(src)
+	if _, err := w.in.Write(append(req, '\n')); err != nil {
+		w.cmd.Process.Kill()
+		w.cmd.Wait()
+		return observation{}
+	}
+	type reply struct {
+		line string
+		err  error
+	}
+	ch := make(chan reply, 1)
+	go func() {
+		l, err := w.out.ReadString('\n')
+		ch <- reply{l, err}
+	}()
+	select {
+	case r := <-ch:
+		if r.err != nil {
+			w.cmd.Wait()
+			if strings.Contains(w.err.String(), "stack overflow") || strings.Contains(w.err.String(), "goroutine stack exceeds") {
+				return observation{Err: "worker-died:stack-overflow"}
+			}
+			return observation{Panic: "the executing process died: " + trunc(w.err.String(), 300), Site: "process"}
+		}
+		var o observation
+		json.Unmarshal([]byte(r.line), &o)
+		if o.Hang {
+			// the worker gave up waiting for its own goroutine: it is of no further use
+			w.cmd.Process.Kill()
+			w.cmd.Wait()
+			return o
+		}
+		p.put(w)
+		return o
+	case <-time.After(90 * time.Second):
+		w.cmd.Process.Kill()
+		w.cmd.Wait()
+		return observation{Hang: true}
+	}
+}
+
+func init() {
+	workers["exec1"] = func(args []string) int {
+		debug.SetMaxStack(256 << 20) // a runaway recursion ends this process early
+		in := bufio.NewReaderSize(os.Stdin, 1<<20)
+		out := bufio.NewWriter(os.Stdout)
+		for {
+			line, err := in.ReadString('\n')
+			if err != nil {
+				return 0
+			}
+			var src string
+			if json.Unmarshal([]byte(line), &src) != nil {
+				return 2
+			}
+			o := guardedShort(2*time.Second, func() (string, error) {
+				t, err := plush.NewTemplate(src)
+				if err != nil {
+					return "", err
+				}
+				return t.Exec(c03Context())
+			})
+			b, _ := json.Marshal(o)
+			out.Write(append(b, '\n'))
+			out.Flush()
+			if o.Hang {
+				return 0
+			}
+		}
+	}
+}
+
+// guardedShort: like guarded, without the long second wait (the caller is a process that simply ends)
+func guardedShort(timeout time.Duration, f func() (string, error)) observation {
+	ch := make(chan observation, 1)
+	go func() {
+		var o observation
+		defer func() {
+			if r := recover(); r != nil {
+				o.Panic = fmt.Sprint(r)
+				o.Site = panicSite(o.Panic + "\n" + string(debug.Stack()))
+			}
+			ch <- o
+		}()
+		out, err := f()
+		o.Out = trunc(out, 200)
+		if err != nil {
+			o.IsErr = true
+			o.Err = trunc(err.Error(), 300)
+		}
+	}()
+	select {
+	case o := <-ch:
+		return o
+	case <-time.After(timeout + 8*time.Second):
+		return observation{Hang: true}
 	}
 }
 
@@ -168,6 +343,15 @@ func checkC03(c *Ctx) error {
 		per, muts = 600, 200
 	}
 	corpus, err := collectCorpus(c, gens, per)
+	// (programs that loop over an open-ended interval and leave it with break are not mutated: without the break they run
+	// for 2^63 iterations, and a goroutine cannot be stopped)
+	kept := corpus[:0]
+	for _, it := range corpus {
+		if !strings.Contains(it.Src, "9223372036854775807") {
+			kept = append(kept, it)
+		}
+	}
+	corpus = kept
 	if err != nil {
 		return err
 	}
@@ -276,6 +460,7 @@ func checkC03(c *Ctx) error {
 		}
 	}
 	c.extra["hangs_seen"] = atomic.LoadInt32(&c03Hangs)
+	c03Isolated.closeAll()
 	return nil
 }
 
